@@ -62,9 +62,15 @@ def cases(tier, seed):
             out.append({'kind': 'edge', 'delay': d, 'vectorize': vec, 'solver': 'scipy'})
     # trajectories: method of steps and exact history of a ramp
     for tau in (0.5, 0.3, 1.0):
-        for solver in ('euler', 'scipy'):
+        for solver in ('euler', 'heun', 'scipy'):
             out.append({'kind': 'steps', 'tau': tau, 'solver': solver, 'k': 1.5})
             out.append({'kind': 'ramp', 'tau': tau, 'solver': solver})
+            if solver != 'scipy':
+                # coarser sampling than stepping; a run that is longer than the initial capacity of the history buffer
+                out.append({'kind': 'ramp', 'tau': tau, 'solver': solver, 'sub': 4})
+                for sub in (1, 4):
+                    out.append({'kind': 'quad', 'tau': tau, 'solver': solver, 'sub': sub})
+                out.append({'kind': 'ramp', 'tau': tau, 'solver': solver, 'sub': 8, 'dt': 2.0 ** -9, 'T': 5.0})
     return out
 
 
@@ -74,7 +80,8 @@ def describe(tier, seed):
                     'the state vector, solver conventions euler (t = step counter) and scipy: the compiled function called '
                     'with a hand-made quadratic hist (distinct per component) at 6 probe times must equal the reference that '
                     'reads component x of hist(t_time - tau); delayed edges under an adaptive solver; run() vs method-of-steps '
-                    'solution and vs the exact history of a ramp; non-trivial = all',
+                    'solution (euler, heun, scipy) and vs the exact history of a ramp (also sampled more coarsely than stepped, and over '
+                    'more steps than the history buffer initially holds); non-trivial = all',
             'bounds': {'state_vars': 3, 'delayed_terms': 2 if tier == 'quick' else 3}}
 
 
@@ -92,7 +99,8 @@ def run_case(case):
         res['ok'] = False
         return res
     try:
-        return {'func': run_func, 'edge': run_edge, 'steps': run_steps, 'ramp': run_ramp}[case['kind']](case, res, sig, viol)
+        return {'func': run_func, 'edge': run_edge, 'steps': run_steps, 'ramp': run_ramp,
+                'quad': run_quad}[case['kind']](case, res, sig, viol)
     except Exception as e:
         import traceback
         sig['exc'] = type(e).__name__
@@ -190,7 +198,7 @@ def run_steps(case, res, sig, viol):
     k, tau, x0, T = case['k'], case['tau'], 0.8, 2.0
     op = {'eqs': [f"d/dt * x = -k*past(x, tau)"], 'vars': {'x': f'output({x0})', 'k': k, 'tau': tau}}
     errs = []
-    for dt in ((2.0 ** -5, 2.0 ** -6) if case['solver'] == 'euler' else (2.0 ** -5,)):
+    for dt in ((2.0 ** -5, 2.0 ** -6) if case['solver'] != 'scipy' else (2.0 ** -5,)):
         from .. import pool
         pool.fresh_state()
         circ = _circuit(op)
@@ -208,7 +216,7 @@ def run_steps(case, res, sig, viol):
             return viol('dde_solution_error', errors=errs)
     else:
         ratio = errs[0] / max(errs[1], 1e-300)
-        if errs[0] > 0.1 or not (1.4 <= ratio <= 2.8):
+        if errs[0] > 0.1 or not (1.4 <= ratio <= (2.8 if case['solver'] == 'euler' else 4.8)):
             return viol('dde_convergence', errors=errs, ratio=ratio)
     res['outcome'] = 'steps'
     res['ok'] = True
@@ -222,18 +230,21 @@ def run_ramp(case, res, sig, viol):
     op = {'eqs': ["d/dt * x = c", "d/dt * z = past(x, tau)"],
           'vars': {'x': f'output({x0})', 'z': f'variable({z0})', 'c': c0, 'tau': tau}}
     circ = _circuit(op)
-    T = 2.0
+    T = case.get('T', 2.0)
+    DT = case.get('dt', globals()['DT'])
+    sub = case.get('sub', 1)
     kw = dict(rtol=1e-9, atol=1e-11) if case['solver'] == 'scipy' else {}
-    df = circ.run(simulation_time=T, step_size=DT, sampling_step_size=DT, outputs={'x': 'n/dop/x', 'z': 'n/dop/z'},
+    df = circ.run(simulation_time=T, step_size=DT, sampling_step_size=sub * DT, outputs={'x': 'n/dop/x', 'z': 'n/dop/z'},
                   solver=case['solver'], backend='default', vectorize=False, verbose=False, float_precision='float64',
                   clear=True, **kw)
     ts = np.asarray(df.index, dtype=float)
     xs = x0 + c0 * ts
-    if case['solver'] == 'euler':
+    if case['solver'] in ('euler', 'heun'):
+        # (Heun evaluates both stages at the step's start time, and dz/dt does not depend on the state)
         z = [z0]
-        for k in range(len(ts) - 1):
+        for k in range(int(round(T / DT)) - 1):
             z.append(z[-1] + DT * (x0 + c0 * max(k * DT - tau, 0.0)))
-        zs = np.array(z)
+        zs = np.array(z)[::sub]
         tol = 1e-9
     else:
         zs = z0 + x0 * ts + 0.5 * c0 * np.maximum(ts - tau, 0.0) ** 2
@@ -244,5 +255,44 @@ def run_ramp(case, res, sig, viol):
         if got.shape != exp.shape or np.max(np.abs(got - exp)) > tol:
             return viol('history_trajectory', var=name, got=got.tolist()[:10], expected=exp.tolist()[:10])
     res['outcome'] = 'ramp'
+    res['ok'] = True
+    return res
+
+
+def run_quad(case, res, sig, viol):
+    """x' = c, w' = x (quadratic in t), z' = past(w, tau): between the computed steps the history is the linear
+    interpolant of the computed w, whatever the sampling of the output is"""
+    tau, c0, x0, w0, z0 = case['tau'], 0.5, 0.25, 0.2, 0.1
+    op = {'eqs': ["d/dt * x = c", "d/dt * w = x", "d/dt * z = past(w, tau)"],
+          'vars': {'x': f'output({x0})', 'w': f'variable({w0})', 'z': f'variable({z0})', 'c': c0, 'tau': tau}}
+    circ = _circuit(op)
+    T, sub = 2.0, case.get('sub', 1)
+    df = circ.run(simulation_time=T, step_size=DT, sampling_step_size=sub * DT,
+                  outputs={'x': 'n/dop/x', 'w': 'n/dop/w', 'z': 'n/dop/z'}, solver=case['solver'], backend='default',
+                  vectorize=False, verbose=False, float_precision='float64', clear=True)
+    n = int(round(T / DT))
+    x, w, z = [x0], [w0], [z0]
+
+    def H(s):
+        if s <= 0:
+            return w0
+        q = s / DT
+        lo = int(math.floor(q + 1e-12))
+        if lo >= len(w) - 1:
+            return w[-1]
+        return w[lo] + (q - lo) * (w[lo + 1] - w[lo])
+    for k in range(n - 1):
+        h = H(k * DT - tau)
+        wn = w[-1] + DT * x[-1] + (0.5 * DT * DT * c0 if case['solver'] == 'heun' else 0.0)
+        z.append(z[-1] + DT * h)
+        x.append(x[-1] + DT * c0)
+        w.append(wn)
+    res['evals'] += 1
+    for name, exp in (('x', x), ('w', w), ('z', z)):
+        exp = np.array(exp)[::sub]
+        got = np.asarray(df[name], dtype=float)
+        if got.shape != exp.shape or np.max(np.abs(got - exp)) > 1e-9:
+            return viol('history_trajectory', var=name, got=got.tolist()[:10], expected=exp.tolist()[:10])
+    res['outcome'] = 'quad'
     res['ok'] = True
     return res
